@@ -43,9 +43,11 @@ theorem step_all (slack : Nat → Nat) (s : Pkg) (tabs : List Table) (hF : Full 
       · exact absurd hw (ha w)
       · show ∃ tabs', Full slack (createTable s n c).1 tabs' ∧ NoOrphans (createTable s n c).1 ∧
           ValidAll (createTable s n c).1
-        rw [hst]
-        exact ⟨tabs, ⟨core_setFinisher slack s tabs true hF.core, hF.hasVal⟩, noOrphans_setFinisher s true hN,
-          valid_setFinisher s true hV⟩
+        rcases hst with hst | hst
+        · rw [hst]; exact ⟨tabs, hF, hN, hV⟩
+        · rw [hst]
+          exact ⟨tabs, ⟨core_setFinisher slack s tabs true hF.core, hF.hasVal⟩, noOrphans_setFinisher s true hN,
+            valid_setFinisher s true hV⟩
   | dml op => exact old ha
   | drop n =>
     -- refused by the checks on the name, or accepted: `drop_table` cannot fail midway
@@ -113,6 +115,6 @@ theorem createTable_rejected_view (slack : Nat → Nat) (s : Pkg) (tabs : List T
     rcases createTable_atomic slack s tabs hF hN hV name cols hce with hok | ⟨w, hw⟩ | ⟨-, hst⟩
     · rw [hok] at h; cases h
     · rw [hw] at h; cases h
-    · exact Or.inr hst
+    · exact hst
 
 end MsiProofs.Lifecycle2
